@@ -116,6 +116,9 @@ def _get_mypy_build(files: list[str]) -> mypy_build.BuildResult:
     opt.fine_grained_incremental = True
     # Export inferred types for all expressions
     opt.export_types = True
+    # Keep the parameters of special methods (__getitem__, __eq__, ...) as they are written: by default mypy flags
+    # every one of them as position-only
+    opt.pos_only_special_methods = False
 
     return mypy_build.build(mypyfiles, options=opt)
 
